@@ -16,8 +16,15 @@
 #include <sys/mman.h>
 #include <unistd.h>
 
+// byte type of every view the generated driver creates (sbepp accepts any 1-byte type; `char` is signed here, so a
+// library path that widens a byte without going through `unsigned char` shows up only with it)
+#ifndef RT_BYTE
+#define RT_BYTE unsigned char
+#endif
+
 namespace rt
 {
+typedef RT_BYTE byte_t;
 void output_limit_exceeded(); // abandons the case in flight (hostile counts can make a traversal astronomically long)
 // end of the currently placed image (first byte of the trailing guard page); the harness itself never reads past it
 static const unsigned char* g_image_end = nullptr;
@@ -160,13 +167,13 @@ inline int hexval(char c)
     if(c >= 'A' && c <= 'F') return c - 'A' + 10;
     return -1;
 }
-inline std::vector<unsigned char> unhex(const std::string& s)
+inline std::vector<byte_t> unhex(const std::string& s)
 {
-    std::vector<unsigned char> r;
+    std::vector<byte_t> r;
     if(s == "-") return r;
     r.reserve(s.size() / 2);
     for(std::size_t i = 0; i + 1 < s.size(); i += 2)
-        r.push_back(static_cast<unsigned char>(hexval(s[i]) * 16 + hexval(s[i + 1])));
+        r.push_back(static_cast<byte_t>(static_cast<unsigned char>(hexval(s[i]) * 16 + hexval(s[i + 1]))));
     return r;
 }
 struct Tokens
@@ -188,7 +195,7 @@ struct Tokens
     std::string next() { return pos < t.size() ? t[pos++] : std::string(); }
     std::uint64_t u64() { return std::strtoull(next().c_str(), nullptr, 16); }
     std::uint64_t dec() { return std::strtoull(next().c_str(), nullptr, 10); }
-    std::vector<unsigned char> bytes() { return unhex(next()); }
+    std::vector<byte_t> bytes() { return unhex(next()); }
 };
 
 // ----------------------------------------------------------- guarded buffer
@@ -212,7 +219,7 @@ struct GuardBuf
         mprotect(base, pages * page, PROT_READ | PROT_WRITE);
     }
     // returns pointer p such that p+n is the guard page
-    unsigned char* place(const unsigned char* data, std::size_t n, bool readonly = false)
+    byte_t* place(const void* data, std::size_t n, bool readonly = false)
     {
         ensure(n);
         mprotect(base, pages * page, PROT_READ | PROT_WRITE);
@@ -221,12 +228,13 @@ struct GuardBuf
         g_image_end = base + pages * page;
         if(n) std::memcpy(p, data, n);
         if(readonly) mprotect(base, pages * page, PROT_READ);
-        return p;
+        return reinterpret_cast<byte_t*>(p);
     }
-    unsigned char* end() const { return base + pages * page; }
+    byte_t* end() const { return reinterpret_cast<byte_t*>(base + pages * page); }
     // every byte in front of a placed image still has the fill pattern
-    bool canary_ok(const unsigned char* p) const
+    bool canary_ok(const void* p_) const
     {
+        const unsigned char* p = static_cast<const unsigned char*>(p_);
         for(const unsigned char* q = base; q < p; q++)
             if(*q != 0xEE) return false;
         return true;
